@@ -7,7 +7,7 @@ import ast
 import sympy as sp
 
 from engine import dsl, elab, tv
-from engine.pysrc import Repo, dotted, norm, calls_in, src, attrs_in
+from engine.pysrc import Repo, F, dotted, norm, calls_in, src, attrs_in
 from engine.cfg import walk_noscope
 from engine import astq as Q
 from engine.report import AnalysisError, where
@@ -681,7 +681,76 @@ def regeneration(ctx, models, gens):
         shutil.rmtree(d, ignore_errors=True)
 
 
+NPFUNC = "andes/thirdparty/npfunc.py"
+
+
+def rule_runtime(ctx, repo):
+    """The generated functions call a small runtime library (andes/thirdparty/npfunc.py); "the executed function returns the
+    declared value for any argument values" needs these helpers to be pure: no module-level mutable state read or written,
+    an `out=` buffer handed to NumPy is the caller's or freshly allocated in the call."""
+    mod = repo.module(NPFUNC)
+    mutable = set()
+    for n in mod.body:
+        if isinstance(n, ast.Assign):
+            v = n.value
+            is_mut = isinstance(v, (ast.Dict, ast.List, ast.Set, ast.ListComp, ast.DictComp)) or \
+                (isinstance(v, ast.Call) and (dotted(v.func) or "") in ("dict", "list", "set", "OrderedDict", "defaultdict", "np.zeros",
+                                                                    "np.empty", "np.ones", "np.array"))
+            if is_mut:
+                mutable.update(t.id for t in n.targets if isinstance(t, ast.Name))
+    nfun = 0
+    for name, fn in repo.funcs.get(NPFUNC, {}).items():
+        nfun += 1
+        params = {a.arg for a in fn.args.args + fn.args.kwonlyargs}
+        used = sorted({x.id for x in ast.walk(fn) if isinstance(x, ast.Name) and x.id in mutable and x.id not in params})
+        glob = [g for g in ast.walk(fn) if isinstance(g, (ast.Global, ast.Nonlocal))]
+        issues = []
+        if used:
+            issues.append("uses the module-level mutable object(s) %s" % ", ".join(used))
+        if glob:
+            issues.append("declares global state")
+        # out= buffers
+        for c in calls_in(fn):
+            for k in c.keywords:
+                if k.arg == "out" and isinstance(k.value, ast.Name) and k.value.id not in params:
+                    defs = [st for st in walk_noscope(fn) if isinstance(st, ast.Assign) and any(dotted(t) == k.value.id for t in st.targets)]
+                    fresh = defs and all(isinstance(d.value, ast.Call) and (dotted(d.value.func) or "").split(".")[-1] in
+                                         ("zeros_like", "zeros", "empty_like", "empty", "ones_like", "full_like", "copy", "array") for d in defs)
+                    if not fresh:
+                        issues.append("`out=%s` of `%s` is not allocated in the call" % (k.value.id, dotted(c.func)))
+                elif k.arg == "out" and isinstance(k.value, ast.Name) and k.value.id in params:
+                    # a parameter defaulted to None and re-bound in the call: every re-binding must allocate
+                    defs = [st for st in walk_noscope(fn) if isinstance(st, ast.Assign) and any(dotted(t) == k.value.id for t in st.targets)]
+                    stale = [d for d in defs if not (isinstance(d.value, ast.Call) and (dotted(d.value.func) or "").split(".")[-1] in
+                                                     ("zeros_like", "zeros", "empty_like", "empty", "ones_like", "full_like", "copy", "array"))]
+                    if stale:
+                        issues.append("default output buffer `%s = %s` is not a fresh allocation: results of earlier calls show through where "
+                                      "the operation is masked" % (k.value.id, src(stale[0].value)))
+        ctx.check(not issues, "C02.runtime", "npfunc.%s" % name, "pure (no shared state, output buffer allocated per call)",
+                  "; ".join(issues), "%s:%d" % (NPFUNC, fn.lineno))
+    if nfun == 0:
+        raise AnalysisError("runtime helper library %s has no functions" % NPFUNC)
+    # re-import after regeneration: a package object taken from sys.modules is reloaded before it is used
+    f = F.function(repo, SYSTEM, "import_pycode")
+    issues = []
+    for st in walk_noscope(f.fn):
+        if isinstance(st, ast.Assign):
+            for x in ast.walk(st.value):
+                d = dotted(x) if isinstance(x, (ast.Attribute, ast.Subscript, ast.Call)) else None
+                if d and d.startswith("sys.modules"):
+                    issues.append("`%s` takes the package from sys.modules without reloading its sub-modules" % src(st))
+    calls = [c for c in calls_in(f.fn) if dotted(c.func) == "reload_submodules"]
+    r = repo.funcs.get(SYSTEM, {}).get("reload_submodules")
+    reloads = r is not None and any(dotted(c.func) == "importlib.reload" for c in calls_in(r))
+    if not calls or not reloads:
+        issues.append("no reload of an already imported package (reload_submodules / importlib.reload)")
+    ctx.check(not issues, "C02.staleness", "import_pycode/reload", "an already imported pycode package is reloaded (importlib.reload of every sub-module)",
+              "; ".join(issues) + ": code regenerated in this process is written to disk but the old callables, argument lists and md5 stay in use",
+              f.W())
+
+
 def run(ctx):
+    ctx.rule("C02.runtime", "runtime helpers called by generated code are pure", 1)
     ctx.rule("C02.body", "i-th element of every generated function == own parse of the declared string of the i-th "
              "variable/service of the collection the runtime enumerates (SubsService substituted), by normal form", 1500)
     ctx.rule("C02.binding", "generated signature == stored *_args element-wise (runtime binds positionally); free names "
@@ -711,6 +780,7 @@ def run(ctx):
     rule_hash(ctx, repo)
     rule_undill(ctx, repo)
     rule_determinism(ctx, repo)
+    rule_runtime(ctx, repo)
     ctx.extra["explanation_tv"] = ("programs = generated functions compared; disagreements_checked = element pairs that "
                                    "needed more than structural equality")
     # TV-level samples
